@@ -164,8 +164,10 @@ fn gen_requires(r: &mut Rng) -> Vec<RequireSpec> {
         .collect()
 }
 
+/// Up to five names from a pool of five, so an alternative often repeats a name next to two or
+/// more distinct ones (seeded change C20-15: de-duplication of repeats through a hash set).
 fn gen_names(r: &mut Rng) -> Vec<String> {
-    (0..r.usize(3))
+    (0..r.usize(6))
         .map(|_| (*r.pick(&["node", "jdk", "a b", "x\"y", ""])).to_string())
         .collect()
 }
@@ -264,6 +266,7 @@ pub fn generate(seed: u64) -> Scenario {
             build_sboms: if r.bool() { gen_sbom_list(&mut r) } else { Vec::new() },
             launch_sboms: if r.bool() { gen_sbom_list(&mut r) } else { Vec::new() },
             launch_sboms_first: r.bool(),
+            store_tamper: 0,
         },
         plan_in: InputKind::Valid,
         store_in: if r.bool() { InputKind::Valid } else { InputKind::Missing },
@@ -275,6 +278,11 @@ pub fn generate(seed: u64) -> Scenario {
         if let Some(p) = s.build.launch.as_mut().and_then(|l| l.processes.first_mut()) {
             p.workdir = Some(super::script::WORKDIR_NOT_UTF8.to_string());
         }
+    }
+    // an author who echoes the restored store and manages `store.toml` by hand on the way
+    if s.build_phase && s.store_in == InputKind::Valid && r.chance(1, 5) {
+        s.build.store = Some(vec![("old".to_string(), super::tval::TVal::Str("store".to_string()))]);
+        s.build.store_tamper = 1 + r.below(2) as u8;
     }
     for _ in 0..deviations {
         match r.below(9) {
@@ -660,6 +668,7 @@ pub fn judge(s: &Scenario, x: &Executed) -> Vec<String> {
                 },
             }
             match &s.build.store {
+                None if s.build.store_tamper != 0 => {} // the author's own bytes; nothing to require
                 None => unchanged("layers/store.toml", &mut v),
                 Some(t) => match parse_toml_file(&x.after, "layers/store.toml") {
                     Ok(got) => {
